@@ -38,7 +38,9 @@ func runC01(c *Ctx) {
 		// rules for the obfs4 connection code (and the shared distributions) are part of this property
 		importObls(c, "C10", runC10, "X10", func(k string) bool { return containsAny(k, "transports/obfs4", "common/probdist") })
 		// bytes decoded before a fatal error are handed over before the error is (C05.R5)
-		importObls(c, "C05", runC05, "X05", func(k string) bool { return containsAny(k, "(*obfs4Conn).Read#error-priority", "(*obfs4Conn).Read#decoded-bytes-first") })
+		importObls(c, "C05", runC05, "X05", func(k string) bool {
+			return containsAny(k, "(*obfs4Conn).Read#error-priority", "(*obfs4Conn).Read#decoded-bytes-first")
+		})
 	}
 	p := c.P
 	// a stream whose valid handshake is refused delivers nothing
